@@ -179,6 +179,29 @@ class World:
             return [(a, miner_pk), (total - a, k2)]
         return [(max(total - rng.choice([1, 1000]), 0), miner_pk)]
 
+    def sized_block(self, parent_id, ts, miner_pk, size):
+        """a VALID reward-only block whose encoding has exactly `size` bytes (the reward split over many outputs, the rest
+        filled by the reward's free data): (rblock, real block) -- used for blocks at and just below the size limit"""
+        parent = self.chain.blocks[parent_id]
+        total = ref.subsidy(parent.height + 1)
+        probe = self.draft(parent_id, [], ts, miner_pk, data=b"", reward_outputs=[(total, miner_pk)])
+        pad = 96 - len(probe.sh) - len(probe.cs) - len(probe.bh)       # the proof-of-work evidence is filled in by mine()
+        base = len(probe.enc()) + pad
+        per_output = 8 + 1 + 64
+        m = max(0, (size - base - 8) // per_output)
+        for extra in range(m, max(m - 3, -1), -1):
+            for d in range(0, 200):
+                outs = [(total, miner_pk)] + [(0, self.keys[i % len(self.keys)][1]) for i in range(extra)]
+                blk = self.draft(parent_id, [], ts, miner_pk, data=b"\x5a" * d, reward_outputs=outs)
+                n = len(blk.enc()) + pad
+                if n == size:
+                    rb = self.mine(blk)
+                    assert len(rb.enc()) == size, (len(rb.enc()), size)
+                    return rb, bridge.rblock_to_real(rb)
+                if n > size:
+                    break
+        raise RuntimeError("no block of %d bytes" % size)
+
     def assemble(self, parent_id, rtxs, ts, miner_pk, route=None, data=b"", reward_outputs=None):
         """(rblock, real block).  route 'real': the repo's construct_block_for_mining on a state whose head is the
         parent, nonce found with the reference evidence; route 'ref': built entirely from the reference model"""
